@@ -50,6 +50,8 @@ def enc_int(k):
 def words_for(sigma, maxlen, foreign="#"):
     ws = ["".join(t) for n in range(maxlen + 1) for t in itertools.product(sigma, repeat=n)]
     # a few words with a symbol outside the alphabet
+    if not sigma:
+        return ws, [foreign, foreign * 2]
     extra = [foreign, sigma[0] + foreign, foreign + sigma[0], sigma[0] * 2 + foreign + sigma[-1]]
     return ws, extra
 
@@ -164,10 +166,11 @@ def run_chunks(ctx, cases, maxlen, tag, size=200):
 def run(ctx):
     ctx.rule = RULE
     run_chunks(ctx, refusals(), 3, "refusal")
+    run_chunks(ctx, scope("", 0, 3), 2, "empty-alphabet")
     run_chunks(ctx, scope("a", 4, 3), 6, "exhaustive-a")
     run_chunks(ctx, scope("ab", 4, 3), 6, "exhaustive-ab")
     ctx.exhaustive = True
-    ctx.exhaustive_scope = ("all references of length <= 4 over {a} and over {a,b}, k = 0..3, all 7 kind subsets; verdicts on "
+    ctx.exhaustive_scope = ("the empty alphabet; all references of length <= 4 over {a} and over {a,b}, k = 0..3, all 7 kind subsets; verdicts on "
                             "all words of length <= 6 over the alphabet plus 4 words with a foreign symbol")
     if ctx.tier == "thorough":
         run_chunks(ctx, scope("ab", 6, 4), 7, "exhaustive-ab-large")
